@@ -7,7 +7,7 @@ REQUIRES = ['recipient']
 USES_QUERIES = True
 USES_KNOWN_VALUES = True
 EXPLANATION = (
-    "FLOW/CODEC/GUARD rules. C10.1: in multi-recipient encryption the very same fresh SymmetricKey value (same creation site) is the "
+    "FLOW/CODEC/GUARD rules. C10.1 (also: the forms without a test nonce are the _opt forms over the receiver and the caller's recipients): in multi-recipient encryption the very same fresh SymmetricKey value (same creation site) is the "
     "key of encrypt_subject and the content key sealed for every recipient; the loop ranges over the whole recipients parameter; each "
     "recipient assertion is assertion('hasRecipient', SealedMessage::new_opt(to_cbor_data(content key), that recipient, ..)). C10.2: the "
     "reader looks up 'hasRecipient', extracts SealedMessage, and parses the plaintext with the SymmetricKey tagged decoder (writer: tagged "
